@@ -523,6 +523,9 @@ def wanVerdict (w : World) (s : Skb) (l2 : Bool) (p : Pkt) (isTcp : Bool) (ob ma
 
 def ppName (pp : Option PidPname) : Bytes := match pp with | some x => x.pname | none => zeros 16
 def ppPid (pp : Option PidPname) : Nat := match pp with | some x => x.pid | none => 0
+/-- `if (pid_pname) memcpy(dst, pid_pname->pname)`: the sender's name if known, else what was there -/
+def ppNameOr (pp : Option PidPname) (old : Bytes) : Bytes := match pp with | some x => x.pname | none => old
+def ppPidOr (pp : Option PidPname) (old : Nat) : Nat := match pp with | some x => x.pid | none => old
 
 /-- a new TCP connection of a local process -/
 def wanTcpSyn (rt : RouteIn → Int) (w : World) (s : Skb) (l2 : Bool) (p : Pkt) : World × Out :=
@@ -568,8 +571,8 @@ def wanUdpCache (w : World) (p : Pkt) (st : Option ConnState) (cached : Bool) (p
   | some cs =>
     if p.tuples.five.dport != 53 then
       let cs1 := { cs with mac := mac,
-                           pname := (match pp with | some x => x.pname | none => cs.pname),
-                           pid := (match pp with | some x => x.pid | none => cs.pid),
+                           pname := ppNameOr pp cs.pname,
+                           pid := ppPidOr pp cs.pid,
                            outbound := d.ob, mark := d.mark, must := d.must, dscp := p.tuples.dscp,
                            hasRouting := 1, lastSeen := w.now }
       (setConn w p.tuples.five cs1, if cached then cs1.pname else hpname)
